@@ -13,24 +13,40 @@ type Locker interface {
 // Mutex: Lock is a scheduling point enabled while the mutex is free.
 type Mutex struct {
 	locked bool
-	w      int // writers (always 0/1)
+	w      int    // writers (always 0/1)
+	holder string // Debug only: where the current holder took it
 }
 
-type lockOp struct{ m *Mutex }
+type lockOp struct {
+	m    *Mutex
+	site string
+}
 
 //go:norace
 func (o *lockOp) Enabled() bool { return !o.m.locked }
 
 //go:norace
-func (o *lockOp) Kind() string { return "lock" }
+func (o *lockOp) Kind() string {
+	if o.site != "" {
+		return "lock@" + o.site + " held by " + o.m.holder
+	}
+	return "lock"
+}
 
 //go:norace
 func (m *Mutex) Lock() {
 	if vsched.Dying() {
 		return
 	}
-	vsched.PointOp(&lockOp{m})
+	op := &lockOp{m: m}
+	if vsched.Debugging() {
+		op.site = vsched.CallerSite(2)
+	}
+	vsched.PointOp(op)
 	m.locked = true
+	if op.site != "" {
+		m.holder = op.site
+	}
 	vsched.RaceAcquire(m)
 }
 
